@@ -49,6 +49,11 @@ def rule_a9_set(ctx):
                        'the key is a whole tag set, which compares from the base (innermost) tag: explicitly tagged SET '
                        'members are ordered by their inner tag instead of the outermost one (X.690 10.3)', node=r)
                 continue
+            if isinstance(v, ast.Call) and call_name(v) == '_componentSortKey':
+                callee = ctx.prog.resolve_expr(m.module, v.func)
+                if isinstance(callee, FuncInfo):
+                    ctx.ob('A9.set', m, 'return %s' % txt, True, 'delegates to %s (analysed on its own)' % callee.short, node=r)
+                    continue
             raise AnalysisError('sort key expression `%s` in %s not recognised' % (txt, m.short))
     if len(seen) < 2:
         raise AnalysisError('expected distinct CER and DER sort keys')
@@ -362,3 +367,23 @@ def rule_a12(ctx):
     f = ctx.func('codec.ber.decoder.SingleItemDecoder.__call__')
     ok = any(norm(s) == 'substrate.markedPosition = substrate.tell()' for s in stmts_of(f.node))
     ctx.ob('A12.cache', f, 'mark set at the start of every element', ok, '')
+
+
+def rule_a9_dynamic(ctx):
+    """A9.dyn: the DER sort key resolves an untagged CHOICE member by the alternative actually chosen, in the value
+    arm and in the python-value arm alike (X.690 10.3: ordered by the tag of the value being encoded)."""
+    f = ctx.func('codec.der.encoder.SetEncoder._componentSortKey')
+    arms = [n for n in walk_own(f.node) if isinstance(n, ast.If) and 'Choice.typeId' in norm(n.test) and 'tagSet' in norm(n.test)]
+    if len(arms) != 1:
+        raise AnalysisError('untagged CHOICE arm not found in %s' % f.short)
+    rets = [r for s_ in arms[0].body for r in ast.walk(s_) if isinstance(r, ast.Return)]
+    if len(rets) < 2:
+        ctx.ob('A9.dyn', f, 'untagged CHOICE resolved by the chosen alternative in both arms', False,
+               'the untagged-CHOICE arm has %d return(s): value arm and python-value arm are not both resolved dynamically' % len(rets), node=arms[0])
+        return
+    for r in rets:
+        txt = norm(r.value)
+        dyn = 'getComponent()' in txt or any(isinstance(x, ast.Subscript) and norm(x.value) == 'asn1Spec' for x in ast.walk(r.value))
+        ctx.ob('A9.dyn', f, 'return %s' % txt[:60], dyn,
+               'this key does not depend on the alternative chosen in the value: value objects and Python values of the same '
+               'content are ordered differently' if not dyn else 'depends on the chosen alternative', node=r)
